@@ -61,7 +61,13 @@ func NewCtx(prop, tier string) *Ctx {
 	return c
 }
 
-func (c *Ctx) Cleanup() { os.RemoveAll(c.Scratch) }
+func (c *Ctx) Cleanup() {
+	if os.Getenv("VERIF_KEEP") != "" {
+		fmt.Println("scratch kept:", c.Scratch)
+		return
+	}
+	os.RemoveAll(c.Scratch)
+}
 
 func goEnv() []string {
 	return append(os.Environ(), "GOFLAGS=-mod=mod", "GOPROXY=off", "GOSUMDB=off", "GOTOOLCHAIN=local", "CGO_ENABLED=0")
@@ -137,6 +143,9 @@ type Harness struct {
 	Item     string // corpus item (generated programs)
 	TimeoutMs int
 	MapOrder bool
+	UnwindCex bool
+	Workers   int
+	Quiet     bool
 }
 
 // Result of one harness.
@@ -176,9 +185,13 @@ func (c *Ctx) RunHarness(prog *symgo.Program, h Harness) (*Result, error) {
 }
 
 func (c *Ctx) runEntry(prog *symgo.Program, h Harness, fn *ssa.Function) *Result {
+	workers := c.Workers
+	if h.Workers > 0 {
+		workers = h.Workers
+	}
 	cfg := symgo.Config{
-		Name: h.Name, Entry: fn, Workers: c.Workers, Solver: os.Getenv("VERIF_SOLVER"),
-		MaxSteps: h.MaxSteps, MaxPaths: h.MaxPaths, PanicOK: h.PanicOK, TimeoutMs: h.TimeoutMs,
+		Name: h.Name, Entry: fn, Workers: workers, Solver: os.Getenv("VERIF_SOLVER"),
+		MaxSteps: h.MaxSteps, MaxPaths: h.MaxPaths, PanicOK: h.PanicOK, TimeoutMs: h.TimeoutMs, UnwindCex: h.UnwindCex,
 		Setup: func(in *symgo.Interp) { in.Params = h.Params },
 	}
 	if c.Thorough() {
@@ -191,7 +204,9 @@ func (c *Ctx) runEntry(prog *symgo.Program, h Harness, fn *ssa.Function) *Result
 			res.Missing = append(res.Missing, id)
 		}
 	}
-	c.Logf("%s", rep.Summary())
+	if !h.Quiet || len(rep.Cex) > 0 || rep.Inconclusive() {
+		c.Logf("%s", rep.Summary())
+	}
 	return res
 }
 
@@ -335,7 +350,16 @@ func loadKnown() []KnownFinding {
 func (c *Ctx) KnownFor(prop, key string) *KnownFinding {
 	for i := range c.known {
 		k := &c.known[i]
-		if k.Property == prop && k.Status == "known" && k.Match == key {
+		if k.Property != prop || k.Status != "known" {
+			continue
+		}
+		if k.Match == key {
+			return k
+		}
+		// "*:<assert id>" matches the assertion on any item: used when the
+		// assertion id itself is a classifier (the harness raises it only when
+		// the implementation agrees with the defect model on the witness)
+		if strings.HasPrefix(k.Match, "*:") && strings.HasSuffix(key, k.Match[1:]) {
 			return k
 		}
 	}
@@ -465,8 +489,12 @@ func (c *Ctx) Finish(o *Outcome) int {
 	data, _ := json.MarshalIndent(ev, "", " ")
 	os.WriteFile(filepath.Join(VerifDir, "evidence", c.Prop+".json"), data, 0644)
 
+	seenK := map[string]bool{}
 	for _, k := range o.Known {
-		fmt.Println(k)
+		if !seenK[k] {
+			seenK[k] = true
+			fmt.Println(k)
+		}
 	}
 	for _, v := range o.Violations {
 		fmt.Println(v)
